@@ -15,6 +15,7 @@ import Proofs.Stream
 import Proofs.ScannerLimit
 import Proofs.FlowTieStream
 import Proofs.FlowTieImport
+import Proofs.JlTie
 
 namespace Jl.C08
 open Jl Jl.Scanner Jl.Stream
@@ -160,5 +161,17 @@ theorem failure_path_is_the_source :
     Gen.flowTable.newImporter = .scanner 0 Gen.initialBufferSize Gen.maximumBufferSize :=
   ⟨FlowTie.getRow_as_modelled, FlowTie.err_as_modelled, FlowTie.stream_as_modelled,
    FlowTie.scanner_sizes.1⟩
+
+
+/-- …and through the command: the processor `jl` installs LOGS the failure of a line (at error level, on standard
+    error) and carries on; standard output is handed to the exporter and nothing else is printed on it; a template
+    error ends the process with a non-zero status. Read from `cmd/jl` on every run (Proofs/JlTie). -/
+theorem command_reports_failures_is_the_source :
+    Gen.jlFacts.processor = .logsAndReturnsNil ∧
+    JlTie.procG Gen.jlFacts.processor = some .tolerant ∧
+    Gen.jlFacts.printCalls = [] ∧
+    (∃ code, Gen.jlFacts.run = .stream code 0 "Stdin" 1 "Stdout" ∧ code ≠ 0) :=
+  ⟨JlTie.processor_as_modelled, JlTie.processor_is_tolerant.1, JlTie.streams_as_modelled.2.1,
+   JlTie.streams_as_modelled.2.2⟩
 
 end Jl.C08
